@@ -594,7 +594,16 @@ macro_rules! new_curve_impl {
                 let x = $base::read_raw(reader)?;
                 let y = $base::read_raw(reader)?;
                 let z = $base::read_raw(reader)?;
-                Ok(Self { x, y, z })
+                let res = Self { x, y, z };
+                // Check that the point is on the curve (as `from_raw_bytes` does).
+                if bool::from(res.is_on_curve()) {
+                    Ok(res)
+                } else {
+                    Err(std::io::Error::new(
+                        std::io::ErrorKind::InvalidData,
+                        "Invalid point: not on the curve.",
+                    ))
+                }
             }
             fn write_raw<W: std::io::Write>(&self, writer: &mut W) -> std::io::Result<()> {
                 self.x.write_raw(writer)?;
@@ -694,7 +703,16 @@ macro_rules! new_curve_impl {
             fn read_raw<R: std::io::Read>(reader: &mut R) -> std::io::Result<Self> {
                 let x = $base::read_raw(reader)?;
                 let y = $base::read_raw(reader)?;
-                Ok(Self { x, y })
+                let res = Self { x, y };
+                // Check that the point is on the curve (as `from_raw_bytes` does).
+                if bool::from(res.is_on_curve()) {
+                    Ok(res)
+                } else {
+                    Err(std::io::Error::new(
+                        std::io::ErrorKind::InvalidData,
+                        "Invalid point: not on the curve.",
+                    ))
+                }
             }
             fn write_raw<W: std::io::Write>(&self, writer: &mut W) -> std::io::Result<()> {
                 self.x.write_raw(writer)?;
